@@ -42,11 +42,45 @@ static Leaf leaf(long rn, long rd, long in, long id)
 }
 static RCP<const Basic> gq_basic(const GQ &g)
 {
-    auto q = [](const mpq_class &v) {
+    auto q = [](const mpq_class &v) -> RCP<const Number> {
+        if (v.get_num().fits_slong_p() && v.get_den().fits_slong_p())
+            return Rational::from_two_ints(v.get_num().get_si(), v.get_den().get_si());
         return Rational::from_two_ints(*integer(integer_class(v.get_num().get_str())), *integer(integer_class(v.get_den().get_str())));
     };
     RCP<const Number> re = q(g.re), im = q(g.im);
     return Complex::from_two_nums(*re, *im);
+}
+// fast exact conversion (exact.h goes through decimal strings; machine-size values are the common case here)
+static bool fast_q(const rational_class &q, mpq_class &out)
+{
+    const integer_class &n = get_num(q), &d = get_den(q);
+    if (mp_fits_slong_p(n) && mp_fits_slong_p(d)) {
+        out = mpq_class(mp_get_si(n), mp_get_si(d));
+        return true;
+    }
+    out = to_mpq(q);
+    return true;
+}
+static bool fast_gq(const Basic &e, GQ &out)
+{
+    if (is_a<Integer>(e)) {
+        const integer_class &i = down_cast<const Integer &>(e).as_integer_class();
+        if (mp_fits_slong_p(i)) {
+            out.re = mpq_class(mp_get_si(i));
+            out.im = 0;
+            return true;
+        }
+        return to_gq(e, out);
+    }
+    if (is_a<Rational>(e)) {
+        out.im = 0;
+        return fast_q(down_cast<const Rational &>(e).as_rational_class(), out.re);
+    }
+    if (is_a<Complex>(e)) {
+        const Complex &c = down_cast<const Complex &>(e);
+        return fast_q(c.real_, out.re) && fast_q(c.imaginary_, out.im);
+    }
+    return false;
 }
 static DenseMatrix to_dense(const GM &m)
 {
@@ -76,7 +110,7 @@ static Kind read_dense(const DenseMatrix &M, int r, int c, GM &out)
         const RCP<const Basic> &e = M.m_[i];
         if (e.is_null())
             return NULLENTRY;
-        if (to_gq(*e, out.v[i]))
+        if (fast_gq(*e, out.v[i]))
             continue;
         if (has_nonfinite(*e))
             k = NONFINITE;
@@ -215,14 +249,14 @@ int main(int argc, char **argv)
         sets.push_back({3, 3, A012, SYMMETRIC, ALL});
         sets.push_back({4, 4, A2, ZERODIAG, CORE});
     } else {
-        sets.push_back({3, 3, A3, FULL, ALL});
-        sets.push_back({3, 3, A4, SYMMETRIC, ALL});
-        sets.push_back({3, 3, {L0, L1, LI}, SYMMETRIC, ALL});
-        sets.push_back({3, 4, A2, FULL, ALL});
-        sets.push_back({4, 3, A2, FULL, ALL});
-        sets.push_back({4, 4, A2, ZERODIAG, ALL});
+        sets.push_back({3, 3, A2, FULL, ALL});
+        sets.push_back({3, 3, A3, FULL, MID});
+        sets.push_back({3, 3, A4, SYMMETRIC, MID});
+        sets.push_back({3, 3, {L0, L1, LI}, SYMMETRIC, MID});
+        sets.push_back({3, 4, A2, FULL, MID});
+        sets.push_back({4, 3, A2, FULL, MID});
+        sets.push_back({4, 4, A2, ZERODIAG, MID});
         sets.push_back({4, 4, A2, FULL, CORE});
-        sets.push_back({4, 4, A3, SYMMETRIC, CORE});
     }
     long long total = 0;
     for (auto &s : sets) {
@@ -271,7 +305,7 @@ int main(int argc, char **argv)
         long long l;
         const MSet &s = locate(i, l);
         GM a = s.decode(l);
-        all_ops(c, a, s.ops == ALL);
+        all_ops(c, a, s.ops);
         if (i % 4001 == 9)
             c.sample("{\"matrix\":" + jstr(gstr(a)) + ",\"det\":" + (a.r == a.c ? jstr(gq_str(g_det(a))) : std::string("null")) + ",\"rank\":"
                      + std::to_string(g_rank(a)) + "}");
